@@ -44,6 +44,14 @@ Definition run_homeo_v (rk p : Z) (lam : fl) (steps : list (list (list fl) * lis
       ser_part (bind_update FN b x0 (acc_all FN ps));
       ser_float (bind_forward FN b x0 (acc_all FN ps))].
 
+(* cell number j of a group driven by ONE trainer object: the (scalar) target the cell sees at every call is computed by the
+   model of forward()'s loop, [targets_used], from the explicit forward target of the step and the cells' defaults *)
+Definition run_homeo_g (rk p : Z) (lam : fl) (j : nat) (dflts : list (option fl))
+           (steps : list (option fl * list (list Z))) (b : bindT FN) (x0 : fl) : tree :=
+  run_homeo_v rk p lam
+    (map (fun s => let tg := match nth j (targets_used FN (fst s) dflts) None with Some v => v | None => nan end in
+                   (map (map (fun _ => tg)) (snd s), snd s)) steps) b x0.
+
 (* [0; parts of every call; accumulated parts; update value; new weight]  or  [1; error code] *)
 Definition run_stdp (c : config FN) (k : nat) (B : nat) (inps : list (list (bool * bool) * signal FN))
            (b : bindT FN) (w0 : fl) : tree :=
